@@ -231,6 +231,17 @@ pub struct Movie {
     /// payload is not materialised (`Built::gap`, field `huge`); chunk offsets then always use co64.
     #[serde(default)]
     pub huge: Option<(u8, u64)>,
+    /// constant sample_size written into the (empty, sample_count 0) stsz of tracks without table
+    /// samples, as init segments of constant-frame-size streams carry it
+    #[serde(default)]
+    pub frag_stsz_size: u32,
+    /// tracks without an edit list get a header-only (8-byte) edts box
+    #[serde(default)]
+    pub empty_edts: bool,
+    /// (track index, chunk index): that chunk's offset is 0, i.e. its samples are the first bytes of
+    /// the file itself (legal; ignored together with `huge`)
+    #[serde(default)]
+    pub zero_chunk: Option<(usize, usize)>,
 }
 
 #[derive(Clone, Debug, Serialize, PartialEq, Eq)]
@@ -242,6 +253,8 @@ pub struct SampleTruth {
     pub cts: i32,
     /// Some for non-fragmented tracks (stss semantics); None where the property does not define it
     pub sync: Option<bool>,
+    /// expected payload when it is not the builder's pattern (a chunk placed over other file bytes)
+    pub raw: Option<Vec<u8>>,
 }
 
 #[derive(Clone, Debug, Serialize, PartialEq, Eq)]
@@ -422,7 +435,7 @@ fn trak_node(m: &Movie, ti: usize, pl: &Placement) -> Node {
         stbl_children.push(Node::leaf("stsz", enc_stsz(0, 0, t.samples[0].size, n, &[])));
     } else {
         let sizes: Vec<u32> = t.samples.iter().map(|s| s.size).collect();
-        stbl_children.push(Node::leaf("stsz", enc_stsz(0, 0, 0, n, &sizes)));
+        stbl_children.push(Node::leaf("stsz", enc_stsz(0, 0, if n == 0 { m.frag_stsz_size } else { 0 }, n, &sizes)));
     }
     let offs = &pl.chunk_off[ti];
     let need64 = offs.iter().any(|o| *o > u32::MAX as u64);
@@ -440,6 +453,8 @@ fn trak_node(m: &Movie, ti: usize, pl: &Placement) -> Node {
         let v = if el.iter().any(|e| e.0 > u32::MAX as u64 || e.1 > u32::MAX as u64) { 1 } else { 0 };
         let entries: Vec<(u64, u64, u16, u16)> = el.iter().map(|e| (e.0, e.1, 1, 0)).collect();
         kids.push(Node::container("edts", vec![Node::leaf("elst", enc_elst(v, 0, &entries))]));
+    } else if m.empty_edts {
+        kids.push(Node::container("edts", vec![]));
     }
     kids.push(mdia);
     Node::container("trak", kids)
@@ -888,6 +903,11 @@ fn compute_placement(m: &Movie, top: &[Node]) -> Placement {
             }
         }
     }
+    if let (Some((ti, ci)), None) = (m.zero_chunk, m.huge) {
+        if let Some(o) = chunk_off.get_mut(ti).and_then(|v| v.get_mut(ci)) {
+            *o = 0;
+        }
+    }
     Placement { chunk_off, frag }
 }
 
@@ -989,7 +1009,7 @@ pub fn build(m: &Movie) -> Built {
                 let mut off = pl.chunk_off[ti][ci];
                 for _ in 0..*c {
                     let s = &t.samples[k];
-                    samples.push(SampleTruth { offset: off, size: s.size, start, dur: s.dur, cts: if t.has_ctts { s.cts } else { 0 }, sync: Some(if t.has_stss { s.sync } else { true }) });
+                    samples.push(SampleTruth { offset: off, size: s.size, start, dur: s.dur, cts: if t.has_ctts { s.cts } else { 0 }, sync: Some(if t.has_stss { s.sync } else { true }), raw: None });
                     off += s.size as u64;
                     start += s.dur as u64;
                     k += 1;
@@ -1011,7 +1031,7 @@ pub fn build(m: &Movie) -> Built {
                         let mut start = tr.tfdt.map(|x| x.1).unwrap_or(0);
                         for s in &tr.samples {
                             let dur = if tr.trun_dur { s.dur } else { tr.tfhd_dur.unwrap_or(t.trex_dur) };
-                            samples.push(SampleTruth { offset: off, size: s.size, start, dur, cts: if tr.trun_cts { s.cts } else { 0 }, sync: None });
+                            samples.push(SampleTruth { offset: off, size: s.size, start, dur, cts: if tr.trun_cts { s.cts } else { 0 }, sync: None, raw: None });
                             off += s.size as u64;
                             start += dur as u64;
                         }
@@ -1022,6 +1042,21 @@ pub fn build(m: &Movie) -> Built {
         }
         let media_duration = t.samples.iter().map(|s| s.dur as u64).sum();
         truth.push(TrackTruth { id: t.id, samples, media_duration });
+    }
+    if let (Some((zt, zc)), None) = (m.zero_chunk, m.huge) {
+        // the samples of that chunk are whatever the file holds at its start
+        if let (Some(tt), Some(t)) = (truth.get_mut(zt), m.tracks.get(zt)) {
+            if zc < t.chunks.len() && t.samples.len() == tt.samples.len() {
+                let first: usize = t.chunks[..zc].iter().map(|c| *c as usize).sum();
+                for k in first..first + t.chunks[zc] as usize {
+                    let st = &mut tt.samples[k];
+                    let (a, b) = (st.offset as usize, st.offset as usize + st.size as usize);
+                    if b <= bytes.len() {
+                        st.raw = Some(bytes[a..b].to_vec());
+                    }
+                }
+            }
+        }
     }
     let gap = gap_at.map(|i| ((top_positions(&top)[i] + 16) as usize, m.huge.map(|g| g.1).unwrap_or(0)));
     Built { bytes, truth, init_len, tree: top, segment, gap }
